@@ -174,6 +174,10 @@ class FnCtx:
                     out |= self.vprov(b[1], seen, depth + 1)
                     if self.pos.get(lid):
                         out.add(("patpos", self.pos[lid]))
+                        # a field taken out by a struct pattern (`let Squash { key, depth } = args;`) is a read of that field
+                        last = self.pos[lid].split(">")[-1].rsplit(".", 1)
+                        if len(last) == 2 and last[1] and not last[1].isdigit() and not last[0].startswith(("tuple", "cp")):
+                            out.add(("field", last[1]))
                     pat = b[2] if len(b) > 2 else None
                     if pat is not None:
                         for v in fb.pat_variants(pat):
